@@ -182,7 +182,7 @@ func (p c12) Run(seed int64, tier string, idx int) Outcome {
 	case idx < len(families):
 		g = pickGrammar(r, idx, false, stdCfg)
 		what = "family"
-	case idx%10 == 7 || idx%25 == 6 || idx%50 == 19:
+	case idx%10 == 7 || idx%25 == 6 || idx%50 == 19 || idx%397 == 57:
 		// usable grammars of every family, including the size families (deep chains, hundreds of rules)
 		g = pickGrammar(r, idx, true, stdCfg)
 		what = "usable family member"
